@@ -2,6 +2,7 @@ package vc
 
 import (
 	"fmt"
+	"strings"
 	"go/token"
 	"go/types"
 	"math/big"
@@ -166,6 +167,7 @@ func (x *Exec) execInstr(bc *blockCtx, in ssa.Instruction) ([]*Edge, bool) {
 			return nil, false
 		}
 		loc := x.derefLoc(bc, in, addr)
+		x.lockedWriteCheck(bc, in, loc)
 		x.storeLoc(bc.st, loc, x.storable(val))
 		return nil, false
 
@@ -1040,6 +1042,43 @@ func (x *Exec) allocFactsDeep(bc *blockCtx, t *smt.Term, typ types.Type, depth i
 			case *types.Pointer, *types.Map, *types.Chan, *types.Slice, *types.Struct:
 				x.allocFactsDeep(bc, x.fieldOf(t, typ, i), u.Field(i).Type(), depth+1)
 			}
+		}
+	}
+}
+
+// lockedWriteCheck: `opt lockedwrites H(T) HS(T) ...` on the contract of a
+// worker body lists memory shared between workers; every store into it (also in
+// inlined callees) must happen while a mutex is held (ghost(locked) >= 1,
+// maintained by the trusted contracts of sync.Mutex.Lock / Unlock).
+func (x *Exec) lockedWriteCheck(bc *blockCtx, in ssa.Instruction, loc *Loc) {
+	if x.rootC == nil || x.spec > 0 {
+		return
+	}
+	spec := x.rootC.Opts["lockedwrites"]
+	if spec == "" {
+		return
+	}
+	var key string
+	switch {
+	case loc.SliceR != nil:
+		key = x.heapKeySlice(loc.RootTyp)
+		if x.freshSet[loc.SliceR.ID] {
+			return // memory allocated by this activation is not shared
+		}
+	case loc.Ref != nil:
+		key = x.heapKeyPtr(loc.RootTyp)
+		if x.freshSet[loc.Ref.ID] {
+			return
+		}
+	default:
+		return
+	}
+	ce := &CEnv{x: x, fr: bc.fr, st: bc.st, pkg: fnPkg(x.root)}
+	for _, tok := range strings.Fields(spec) {
+		if x.resolveHeapName(ce, tok) == key {
+			x.registerGhost("G_locked")
+			x.oblige("frame:locked", bc.fr.prefix+"frame:locked-write("+key+")", bc.reach, x.b.Cmp(">=", x.getHeap(bc.st, "G_locked"), x.b.Int(1)), posOf(in),
+				"store into memory shared between workers must hold the lock: "+x.prog.srcLine(posOf(in)), false)
 		}
 	}
 }
